@@ -21,6 +21,30 @@ CHECKS = {
             "trusted: numpy; documented domain exclusions listed in DESIGN.md C11 (finite-N SPRT with random_order="
             "False, Kaplan-Markov/Wald with finite N, optimal_comparison with u<=1); samples are dyadic floats",
             "DESIGN.md section 4, C11"),
+    "C12": ("reference-model monitor: plain-Python loop products vs the real history, entry by entry; ALPHA-vs-betting equivalence and conversion inverses on the same runs",
+            "Exploration by runtime monitoring: every history entry returned by the six real tests is compared with a "
+            "loop reference that evaluates the published product on the same sample with the eta_j/lambda_j the real "
+            "estimator/bet returned; the betting form is run side by side with the ALPHA form fed eta_j = mu_j(1+lambda_j(u-mu_j)); "
+            "lam_to_eta/eta_to_lam are composed on scalars and arrays. Mismatches are diagnosed (e.g. double_product is "
+            "asserted only if the witness equals min(1,1/cumprod(cumprod f))). Held on the executions observed.",
+            "trusted: numpy, the boundary-index acceptance rules written down in DESIGN.md C12 and in vlib/nnref.py; "
+            "eta_j/lambda_j ranges are C13's business",
+            "DESIGN.md section 4, C12"),
+    "C13": ("range contracts on the values returned by the real estimators/bets plus factor-sign observation on one-step extensions",
+            "Exploration by runtime monitoring: the bound fixed_alternative_mean, shrink_trunc, optimal_comparison, "
+            "fixed_bet and agrapa are called on hostile samples (long runs of zeros/u in tiny populations, eta within "
+            "2^-20 of t or u, tuning parameters over 8 decades, margins below the assumed error rate) and their values "
+            "checked against [0,u], [0,1/mu_j] and eta_j > mu_j with mu_j from an independent loop; the sign of every "
+            "history entry and of every one-step extension prefix+[v], v in {0,u,t,u/2}, is observed.",
+            "trusted: numpy; 'mu_j < u' means mu_j < u(1-1e-6); fixed_bet lambda <= 1/u; optimal_comparison with u > 1",
+            "DESIGN.md section 4, C13"),
+    "C05": ("history monitor: bit-exact prefix / truncation / tail-replacement relations over recorded calls on one configured object",
+            "Exploration by runtime monitoring: for each (configuration, sample, cut k, replacement tail) the real test is "
+            "run on x, x[:k]+y and x[:k] and the recorded histories compared bit for bit (first k entries equal; truncation "
+            "leaves k-1 entries unchanged and may only lower the k-th, and only when the total exceeds N t); estimators and "
+            "bets are called directly and entry j must not move when observations >= j change. k=1 and k=n-1 strata forced.",
+            "trusted: numpy cumulative kernels are sequential (bit equality is then the honest oracle)",
+            "DESIGN.md section 4, C05"),
 }
 
 PENDING_REASON = ("check designed in DESIGN.md section 4 but not yet built in this session; "
